@@ -71,17 +71,17 @@ def corr_stage(scen, quick, thorough, params=None, feature=None, race=False, tim
         for si in range(seeds if ctx.tier_budget == "thorough" else 1):
             seed = ctx.seed + si * 7919
             t0 = time.time()
-            prm = dict(params or {})
+            prm = dict(params(exe) if callable(params) else (params or {}))
             if ctx.tier_budget == "thorough" and tparams:
                 prm.update(tparams)
             tmo = timeout if ctx.tier_budget == "thorough" else min(timeout, 300)
             rc, rec, txt = vlib.run_sharded(exe, scen, seed, n, prm, shards, timeout=tmo)
-            entry = dict(scenario=scen, seed=seed, n=n, params=params or {}, rc=rc)
+            entry = dict(scenario=scen, seed=seed, n=n, params=prm, rc=rc)
             if rc != 0:
                 tail = "\n".join(txt.strip().split("\n")[-40:])
                 kind = "hang/timeout" if ("panic: test timed out" in txt or rc == 124) else "panic/crash"
                 ctx.violate("harness scenario %s (seed %d) ended abnormally (%s):\n%s" % (scen, seed, kind, tail),
-                            dict(kind="scenario-abort", scenario=scen, seed=seed, n=n, params=params or {}, output=tail))
+                            dict(kind="scenario-abort", scenario=scen, seed=seed, n=n, params=prm, output=tail))
                 ctx.stage_log.append(entry)
                 continue
             recs = vlib.read_records(rec) if os.path.exists(rec) else []
@@ -102,7 +102,12 @@ def corr_stage(scen, quick, thorough, params=None, feature=None, race=False, tim
                     ctx.stats[scen + "." + tok[1]] = ctx.stats.get(scen + "." + tok[1], 0) + int(tok[2])
                 elif tok[0] == "MONITOR":
                     ctx.violate("monitor failed on an implementation history: " + line[:400],
-                                dict(kind="monitor", scenario=scen, seed=seed, n=n, params=params or {}, record=line))
+                                dict(kind="monitor", scenario=scen, seed=seed, n=n, params=prm, record=line))
+                elif tok[0] == "INCONCLUSIVE":
+                    # the scenario could not relate the implementation to the model at all (e.g. its synchronisation points are
+                    # not the ones the model has steps for): the correspondence no longer checks, no failing input is claimed
+                    ctx.violate("correspondence cannot be established: " + line[:400],
+                                dict(kind="correspondence-broken", scenario=scen, seed=seed, n=n, params=prm, record=line), has_input=False)
                 elif tok[0] == "EXHAUSTIVE":
                     ctx.exhaustive = True
             ctx.evaluations += ncase
@@ -125,7 +130,7 @@ def corr_stage(scen, quick, thorough, params=None, feature=None, race=False, tim
                         continue
                     seen.add(cid)
                     ctx.violate("implementation history rejected by the model (%s): %s" % (scen, m[:500]),
-                                dict(kind="correspondence", scenario=scen, seed=seed, n=n, params=params or {}, mismatch=m,
+                                dict(kind="correspondence", scenario=scen, seed=seed, n=n, params=prm, mismatch=m,
                                      record=bycase.get(cid, "")[:20000]))
                 ctx.traces += ncase
             entry["cases"] = ncase
@@ -273,18 +278,40 @@ PROPS["C04"] = dict(
     stages=[corr_stage("C04T", 2, 6, feature=lambda tok: tok[2] if (tok[0] == "K2" and "-p" in tok[2]) else None, instrument=True, shards=12,
                        params={"points": 12}, tparams={"points": 1000}, timeout=1200)],
 )
+def c05_trace_params(exe):
+    """ids of the six synchronisation points of WaitCond (sync.go), found by WHAT THEY DO in the instrumenter's table (not by
+    line or order): the ctx.Err() check, the go statement, the receive from ctx.Done(), l.Lock(), cond.Broadcast(), cond.Wait().
+    If sync.go does not have exactly one of each, the trace stage cannot map the implementation's points to the model's steps."""
+    pts = os.path.join(os.path.dirname(exe), "instr", "points.txt")
+    want = ["Err", "go", "recv", "Lock", "Broadcast", "Wait"]
+    found = {}
+    if os.path.exists(pts):
+        for l in open(pts):
+            f = l.split()
+            if len(f) >= 4 and f[1].startswith("sync.go:"):
+                found.setdefault(f[3], []).append(int(f[0]))
+    other = sorted(k for k in found if k not in want)
+    # the context check may be written more than once (e.g. once before the loop and once after each wake-up): every copy is
+    # the model's WStart check; the other five operations must be unique
+    if other or not found.get("Err") or any(len(found.get(k, [])) != 1 for k in want[1:]):
+        return {"pts": "", "ptsproblem": "/".join("%s=%d" % (k, len(found.get(k, []))) for k in want + other)}
+    return {"pts": ".".join("+".join(str(i) for i in found[k]) for k in want)}
+
 PROPS["C05"] = dict(
     rule="C05S: a Get going to sleep races a Put / a second Put / its context's cancellation / Buffer.Close, plain and with a 2 ms delay injected at "
          "every instrumentation point the scenario hits (k-th hit <= 2); a Get still parked afterwards is probed and the model must agree it would "
          "park; after a failed Get the next Get must return the same position. BUFK1 histories with parked/cancelled Gets. non-trivial = history with a "
-         "parked-then-probed or cancelled Get; distinct by op/result sequence and sweep point",
+         "parked-then-probed or cancelled Get; distinct by op/result sequence and sweep point"
+         " C05TRACE: trace acceptance - on an instrumented build the six synchronisation points of WaitCond, every fn evaluation, the notifier sections, cancel() and the return are logged in order and the log must be a run of the extracted WaitCond.step (announced steps only after their announcement, fn sees the model's predicate value).",
     level_text="Theorems (Properties/C05.v) on WaitCond at lock-operation granularity: terminal => (predicate or cancelled => returned and unlocked), "
                "nil only after a true predicate under the lock, error only if cancelled, termination; refuted when the watcher does not take the lock or "
                "the loop does not re-check the context; Buffer model: a failed Get changes nothing. Tie: delay-bounded sweep + history acceptance."
                " Added (DESIGN 5b): every schedule bounded by mu(s); no-recheck variant refuted.",
     level_note="'promptly' is a step-bound/terminal-state statement; real-time latency is only measured (400 ms deadline). The WaitCond model is hand-written; "
                "its tie to sync.go is the sweep over the real code's synchronisation points.",
-    stages=[corr_stage("C05S", 6, 12, feature=feat_buf("C05"), instrument=True, shards=4, tparams={"points": 1000}),
+    stages=[corr_stage("C05TRACE", 400, 4000, params=c05_trace_params, instrument=True,
+                       feature=lambda tok: " ".join(tok[3:40]) if tok[0] == "F" else None),
+            corr_stage("C05S", 6, 12, feature=feat_buf("C05"), instrument=True, shards=4, tparams={"points": 1000}),
             corr_stage("BUFK1", 2000, 5000, feature=feat_buf("C05"), params={"salt": 5})],
 )
 PROPS["C12"] = dict(
